@@ -1059,26 +1059,40 @@ def ismax_in(prog, x):
     return mentions_constdef(x, r"sequence::Sequence::MAX_VALUE$") or mentions_const(x, 15)
 
 
-def arg_namesakes(ctx, prog, label="arg-namesake"):
+def _norm_impl(path):
+    return re.sub(r"<impl (?:[\w]+::)*(\w+)>", r"<impl \1>", path)
+
+
+def arg_namesakes(ctx, prog, label="arg-namesake", other=None, only=None, floor=500):
     """Call arguments that are a plain field read `x.f`, handed to a local function whose parameter is named `p`: when some struct
     has both a field `f` and a field `p` OF THE SAME TYPE and f != p, the call type-checks whichever of the two siblings is written
     there and silently swaps two settings (`create_layer(.., config.features.broadcast /* self_address */, ..)`). Crate-wide; every
     field argument must be the parameter's namesake or have no same-typed sibling of the parameter's name."""
     structs = [dict((f[0], f[1]) for f in a["variants"][0]["fields"]) for a in prog.adts.values() if a["kind"] == "struct"]
+    fns = dict(prog.fns)
+    if other is not None:
+        # calls across the crate boundary (the binding layer calling the library): parameter names from the library's table
+        structs += [dict((f[0], f[1]) for f in a["variants"][0]["fields"]) for a in other.adts.values() if a["kind"] == "struct"]
+        for k_, v_ in other.fns.items():
+            fns.setdefault(k_, v_)
+            # the self type of an inherent impl is spelled through whichever re-export the calling crate sees
+            fns.setdefault(_norm_impl(k_), v_)
 
     def sibling(f, q):
         return any(f in s_ and q in s_ and s_[f] == s_[q] for s_ in structs)
 
     n = 0
     for bd in prog.bodies.values():
-        if "::test" in bd.path:
+        if "::test" in bd.path or (only is not None and not only(bd)):
             continue
         sym = None
         for b in bd.calls():
             c = b.term.callee
-            if not c or c not in prog.fns:
+            if c and c not in fns and other is not None and _norm_impl(c) in fns:
+                c = _norm_impl(c)
+            if not c or c not in fns:
                 continue
-            params = prog.fns[c].get("params") or []
+            params = fns[c].get("params") or []
             if not params:
                 continue
             sym = sym or ctx.sym(bd)
@@ -1091,7 +1105,7 @@ def arg_namesakes(ctx, prog, label="arg-namesake"):
                 n += 1
                 if a[2] != pn and sibling(a[2], pn):
                     ctx.bad("%s@%s:%s(%s)" % (label, short(bd.path), short(c).split("::")[-1], pn), "parameter `%s` of %s is given `%s` although a sibling field `%s` of the same type exists: two settings are swapped" % (pn, short(c), expr_str(a)[:60], pn), bd.where(b.idx))
-    ctx.check(n >= 500, "%s:census" % label, "%d field arguments of local calls examined" % n, "")
+    ctx.check(n >= floor, "%s:census" % label, "%d field arguments of local calls examined" % n, "")
 
 
 def loop_exits_only_when_exhausted(ctx, body, block):
